@@ -83,6 +83,10 @@ func RunLogRing(w *tr.Writer, st *LStats, tid int, h LHist) {
 			emit(map[string]any{"op": "derive", "lg": op.Lg % len(cores), "res": res})
 		case "write":
 			c := cores[op.Lg%len(cores)]
+			// sizes of the generators are written relative to a capacity of 1024: keep their distance to the real one
+			if op.N >= 512 && op.N-1024+logging.BufferSize > 0 {
+				op.N = op.N - 1024 + logging.BufferSize
+			}
 			first := next + 1
 			res := Guard(func() string {
 				for i := 0; i < op.N; i++ {
@@ -118,7 +122,7 @@ func RunLogRingConc(w *tr.Writer, st *LStats, tid int, r *rand.Rand) {
 	counts := make([]int, ng)
 	cores := make([]zapcore.Core, ng)
 	for g := 0; g < ng; g++ {
-		counts[g] = []int{5, 100, 300, 700, 1100}[r.Intn(5)] + r.Intn(50)
+		counts[g] = []int{5, 100, 300, 700, 1100}[r.Intn(5)]*logging.BufferSize/1024 + r.Intn(50)
 		if r.Intn(2) == 0 {
 			cores[g] = ml.GetCore()
 		} else {
